@@ -17,10 +17,10 @@ MIN_DECISIVE = {'quick': 40, 'thorough': 600}
 MIN_COUNTERS = {'quick': {'grid_points': 10000}, 'thorough': {'grid_points': 150000}}
 CASE_TIMEOUT = 900
 WARMUP = True
-RULE = ('each case = one call on a random grid (4-6 radii x 5-8 longitudes x 5-8 colatitudes in (0.15, pi-0.15) x 2-3 times) with random complex '
+RULE = ('each case = one call on a random grid (4-6 radii x 5-8 longitudes x 5-8 colatitudes in (0.15, pi-0.15), in a quarter of the cases with the outermost two within 2e-4..3e-2 rad of the poles, x 2-3 times) with random complex '
         'y1..y6, radii, complex moduli (passive: Im >= 0) and a degree-l potential (l=2: real TidalPy potential modes; l=2..4: synthetic harmonics); '
         'non-trivial = all outputs finite and max |stress| > 0; every grid point is checked (grid points are counted)')
-ASSUMPTIONS = ['potentials fed in satisfy the degree-l surface Laplace identity (checked before use)', 'component-wise tolerances 1e-12 (constitutive) / 1e-11 (tractions) relative to the largest stress component of the call']
+ASSUMPTIONS = ['potentials fed in satisfy the degree-l surface Laplace identity (checked before use)', 'component-wise tolerances 1e-12 (constitutive) / 1e-11 (tractions) relative to the largest stress component of the call, widened by 4e-16 / min sin^2(colatitude) for the rounding of the 1/sin^2 terms near the poles']
 
 
 def gen_cases(tier, seed):
@@ -77,6 +77,12 @@ def eval_case(c):
     if sine:
         lon[0] = 0.0       # with the first time set to 0 below, the sine-phase potential vanishes exactly on this meridian at that time
     col = np.sort(rng.uniform(0.15, math.pi - 0.15, ncol))
+    near_pole = c['sub'] % 4 == 3
+    if near_pole:
+        # grid points close to (not at) the poles (found by seed C15-i: a clamp of sin(theta) below 1e-3): the 1/sin and cot factors are large but legal there
+        col[0] = 10 ** rng.uniform(-3.7, -1.5)
+        col[-1] = math.pi - 10 ** rng.uniform(-3.7, -1.5)
+    amp2 = float(1.0 / np.min(np.sin(col)) ** 2)      # rounding of U_phiphi / sin^2 and cot U_theta relative to max|U|
     n = 10 ** rng.uniform(-6, -4)
     tt = np.sort(rng.uniform(0, 20 / n, nt))
     if sine:
@@ -108,7 +114,7 @@ def eval_case(c):
     U, Ut, Up, Utt, Upp, Utp = pots
     # precondition: degree-l Laplace identity
     lap = np.max(np.abs(Utt + Ut / np.tan(COL) + Upp / np.sin(COL) ** 2 + l * (l + 1) * U)) / max(np.max(np.abs(U)), 1e-300)
-    if lap > 1e-9:
+    if lap > 1e-9 + 1e-15 * amp2:
         return {'status': 'inconclusive', 'nontrivial': False, 'violations': [], 'obs': {'note': f'input potential violates the Laplace identity ({lap:.2e}): {potdesc}'}}
     r = np.sort(rng.uniform(0.3, 1.0, nr)) * Rw
     mag = np.array([1e-7, 1e3, 1e-7, 1e3, 1.0, 1e-6])[:, None]
@@ -127,7 +133,7 @@ def eval_case(c):
     cnt['calls'] += 1
     npts = nr * nlon * ncol * nt
     cnt['grid_points'] += npts
-    obs = {'potential': potdesc, 'grid': [nr, nlon, ncol, nt], 'elastic': c['elastic'], 'mode': c['group']}
+    obs = {'potential': potdesc, 'grid': [nr, nlon, ncol, nt], 'elastic': c['elastic'], 'mode': c['group'], 'near_pole': bool(near_pole), 'min_sin_colatitude': float(np.min(np.sin(col)))}
     if strain.shape != (6, nr, nlon, ncol, nt) or stress.shape != strain.shape:
         V('shape', f'unexpected output shapes {strain.shape} {stress.shape}')
         return {'status': 'violated', 'nontrivial': True, 'violations': viol, 'obs': obs, 'counters': cnt}
@@ -144,7 +150,7 @@ def eval_case(c):
         exp = 2 * B(mu) * strain[k] + (B(lam) * tr if k < 3 else 0)
         e_ = float(np.max(np.abs(stress[k] - exp))) / S
         worst['constitutive_' + names[k]] = e_
-        if e_ > 1e-12:
+        if e_ > 1e-12 + 4e-16 * amp2:
             idx = np.unravel_index(int(np.argmax(np.abs(stress[k] - exp))), exp.shape)
             V(f'constitutive-law-{names[k]}', f'sigma_{names[k]} differs from 2 mu eps + lambda tr(eps) delta by {e_:.3e} of max|sigma| at grid index {idx} ({potdesc})')
     sinC = np.sin(COL)[None, ...]
@@ -152,7 +158,7 @@ def eval_case(c):
                          ('sigma_rphi = y4 dU/dphi / sin(theta)', stress[4], B(y[3]) * Up[None, ...] / sinC)):
         e_ = float(np.max(np.abs(got - exp))) / S
         worst[nm] = e_
-        if e_ > 1e-11:
+        if e_ > 1e-11 + 4e-16 * amp2:
             V('radial-traction-' + nm.split(' ')[0], f'{nm} violated by {e_:.3e} of max|sigma| ({potdesc}, l={l})')
     st_snap, sn_snap = stress.copy(), strain.copy()
     h = calculate_volumetric_heating(stress, strain)
